@@ -433,12 +433,7 @@ func (x *Exec) invokeSymbolic(st *State, fr *Frame, in ssa.Instruction, c *ssa.C
 
 func (x *Exec) builtin(st *State, fr *Frame, in ssa.Instruction, b *ssa.Builtin, c *ssa.CallCommon, args []Value) []Value {
 	ret := func(v Value) []Value { return []Value{v} }
-	lenTerm := func(t *Term) Value {
-		if x.bv {
-			return Int2BV(t, 64)
-		}
-		return t
-	}
+	lenTerm := func(t *Term) Value { return t }
 	switch b.Name() {
 	case "len":
 		switch a := args[0].(type) {
